@@ -36,8 +36,8 @@ from rules.semantic import enclosing_tests as _enclosing_tests
 from rules.common import local_single_defs as _lsd, substitute_locals as _subst
 
 CAP_PROVIDERS = {
-    "kFlowDecompCycles": ("max_edge_repetition_dict", "{(u, v): data[self.flow_attr] if self.flow_attr in data else self.w_max for u, v, data in self.G.edges(data=True)}",
-                          "the edge's own flow (x*w <= f, w >= 1); w_max for attribute-less helper edges"),
+    "kFlowDecompCycles": ("max_edge_repetition_dict", "{(u, v): data[self.flow_attr] if self.flow_attr in data and (u, v) not in self.edges_to_ignore else self.w_max for u, v, data in self.G.edges(data=True)}",
+                          "the edge's own flow (x*w <= f, w >= 1) for edges whose flow row is in the model; w_max for ignored and attribute-less helper edges"),
     "kLeastAbsErrorsCycles": ("max_edge_repetition_dict", "self.G.compute_edge_max_reachable_value(flow_attr=self.flow_attr)", "largest weight reachable from / reaching the edge"),
     "kMinPathErrorCycles": ("max_edge_repetition_dict", "self.G.compute_edge_max_reachable_value(flow_attr=self.flow_attr)", "largest weight reachable from / reaching the edge"),
     "kPathCoverCycles": ("max_edge_repetition", "self.G.number_of_edges() * self.G.number_of_nodes()", "|E|*|V| bounds the length of a shortest covering walk"),
@@ -94,6 +94,8 @@ def check(prog, rep):
     run(prog, rep, "C04", "MinFlowDecompCycles", "walks", False, 4)
     rep.rule("C04.R5", "per-edge repetition caps: providers, overwrite discipline, variable bound and big-M tied to the cap", floor=7)
     repetition_caps(prog, rep, "C04.R5")
+    from rules.bounds import cap_premises
+    cap_premises(prog, rep, "C04.R5", "kFlowDecompCycles")
     _conformance(prog, rep, "C04.R5", "C04")
     rep.rule("C04.R7", "safe-sequence fixing never forbids further repetitions of a cycle edge: SCC edges get lower bounds (x >= m) on both option routes", floor=2)
     from rules.c05 import bound_vs_constraint_route
@@ -101,3 +103,8 @@ def check(prog, rep):
     rep.rule("C04.R8", "the integer*continuous product helper every walk model uses is exact for multiplicities up to its bound (bit count, rows; C12.R2)", floor=5)
     from rules.common import helpers_exact
     helpers_exact(prog, rep, "C04.R8")
+    rep.rule("C04.R9", "the min-gen-set lower bound is not an over-estimate: product bounds of MinGenSet cover max(numbers) (C15.R6)", floor=2)
+    from rules.bounds import product_covers_rhs
+    from rules.common import RuleProxy
+    product_covers_rhs(prog, RuleProxy(rep, "C04.R9"), "C15.R6")
+
